@@ -2,6 +2,8 @@
 memo size classes, output event log, lazy configuration flags (DESIGN.md 3.3)."""
 from values import (Agg, Box_, Bytes, INT_TYPES, Opaque, PathEnd, Payload, Ref, Sym, UNINIT, Unanalysable,
                     bounds, is_none, is_some, is_sym, none, some, unit)
+import copy
+import re
 import models as M
 from models import MODELS, model, deref, deref1, It, RcCell, VecObj, ListIt, to_bytes, length_of
 
@@ -695,7 +697,7 @@ class KeysIt(ListIt):
         self.unordered = True
 
 
-@model("std::collections::HashMap::<K, V, S, A>::is_empty")
+@model("std::collections::HashMap::<K, V, S, A>::is_empty", "std::collections::BTreeMap::<K, V, A>::is_empty")
 def _hm_is_empty(I, f, a):
     m = deref(I, a[0])
     if hasattr(m, "is_empty"):
@@ -703,18 +705,18 @@ def _hm_is_empty(I, f, a):
     raise I.unanalysable("HashMap::is_empty on %r" % (m,))
 
 
-@model("std::collections::HashMap::<K, V, S, A>::len", "std::collections::HashSet::<T, S, A>::len")
+@model("std::collections::HashMap::<K, V, S, A>::len", "std::collections::HashSet::<T, S, A>::len", "std::collections::BTreeMap::<K, V, A>::len")
 def _hm_len(I, f, a):
     return length_of(I, deref(I, a[0]))
 
 
-@model("std::collections::HashMap::<K, V, S, A>::contains_key")
+@model("std::collections::HashMap::<K, V, S, A>::contains_key", "std::collections::BTreeMap::<K, V, A>::contains_key")
 def _hm_contains(I, f, a):
     m = deref(I, a[0])
     return m.contains(I, deref(I, a[1]))
 
 
-@model("std::collections::HashMap::<K, V, S, A>::get")
+@model("std::collections::HashMap::<K, V, S, A>::get", "std::collections::BTreeMap::<K, V, A>::get")
 def _hm_get(I, f, a):
     m = deref(I, a[0])
     return m.get(I, deref(I, a[1]))
@@ -765,7 +767,7 @@ def _hash_key(I, key):
         I.run.panics.append(("in_key_hash",) + p)
 
 
-@model("std::collections::HashMap::<K, V, S, A>::insert", "std::collections::HashSet::<T, S, A>::insert")
+@model("std::collections::HashMap::<K, V, S, A>::insert", "std::collections::HashSet::<T, S, A>::insert", "std::collections::BTreeMap::<K, V, A>::insert")
 def _hm_insert(I, f, a):
     m = deref(I, a[0])
     _hash_key(I, a[1])
@@ -774,7 +776,7 @@ def _hm_insert(I, f, a):
     return m.insert(I, *a[1:])
 
 
-@model("std::collections::HashMap::<K, V, S, A>::clear")
+@model("std::collections::HashMap::<K, V, S, A>::clear", "std::collections::BTreeMap::<K, V, A>::clear")
 def _hm_clear(I, f, a):
     deref(I, a[0]).clear(I)
     return unit()
@@ -786,6 +788,42 @@ def _hm_keys(I, f, a):
     if hasattr(m, "keys_iter"):
         return m.keys_iter(I)
     raise I.unanalysable("HashMap::keys on %r" % (m,))
+
+
+@model("std::collections::BTreeMap::<K, V, A>::keys")
+def _btm_keys(I, f, a):
+    m = deref(I, a[0])
+    if hasattr(m, "keys_iter"):
+        it = m.keys_iter(I)
+        it.unordered = False            # a BTreeMap walks its keys in ascending order
+        return it
+    raise I.unanalysable("BTreeMap::keys on %r" % (m,))
+
+
+@model("std::collections::BTreeMap::<K, V, A>::range")
+def _btm_range(I, f, a):
+    """keys of the abstract memo inside a RangeTo / Range / RangeFrom / RangeInclusive with concrete or bounded ends"""
+    m = deref(I, a[0])
+    if not isinstance(m, AbsMemo):
+        raise I.unanalysable("BTreeMap::range on %r" % (m,))
+    r = a[1]
+    adt = re.sub(r"<.*$", "", str(getattr(r, "adt", "")))
+    fs = [x for x in r.fields] if isinstance(r, Agg) else None
+    if fs is None or any(not isinstance(x, int) for x in fs):
+        raise I.unanalysable("BTreeMap::range with bounds %r" % (r,))
+    ks = sorted(m.mat(I))
+    if adt.endswith("RangeTo"):
+        ks = [k for k in ks if k < fs[0]]
+    elif adt.endswith("RangeFrom"):
+        ks = [k for k in ks if k >= fs[0]]
+    elif adt.endswith("Range"):
+        ks = [k for k in ks if fs[0] <= k < fs[1]]
+    elif adt.endswith("RangeToInclusive"):
+        ks = [k for k in ks if k <= fs[0]]
+    else:
+        raise I.unanalysable("BTreeMap::range with %s" % adt)
+    I.run.event("memo_keys_iter", I.where())
+    return ListIt([Agg("tuple", None, [k, m.entry(k)]) for k in ks], by_ref=False)
 
 
 class MapObj:
@@ -806,7 +844,8 @@ class MapObj:
 
 
 @model("std::collections::HashMap::<K, V>::new", "std::collections::HashSet::<T>::new",
-       "<std::collections::HashMap<K, V, S> as std::default::Default>::default")
+       "<std::collections::HashMap<K, V, S> as std::default::Default>::default", "std::collections::BTreeMap::<K, V>::new",
+       "<std::collections::BTreeMap<K, V> as std::default::Default>::default")
 def _hm_new(I, f, a):
     return MapObj()
 
@@ -887,6 +926,23 @@ class AbsOutput:
         I.run.event("out_clear")
         self.cur_len = 0
 
+    def last(self, I):
+        """output.last(): the last byte written, when the last effect on the buffer is an append whose final byte is known"""
+        if self.is_empty(I):
+            return none()
+        for w in reversed(self.writes):
+            if w[0] == "patch":
+                continue            # patches rewrite reserved bytes in the middle (bounds-checked), not the tail
+            if w[0] == "out" and w[1]:
+                p = w[1][-1]
+                if p[0] == "lit" and p[1]:
+                    return some(Ref(Box_(p[1][-1], "last"), ()))
+                if p[0] == "u8":
+                    return some(Ref(Box_(p[1], "last"), ()))
+            break
+        I.run.event("out_len_read", self.cur_len, len(self.writes))
+        return some(Ref(Box_(Sym("out_byte", (), "u8", 0, 255), "last"), ()))
+
     def index_set(self, I, idx, val):
         self._bounds(I, idx)
         self.writes.append(("patch", idx, 1, [("u8", val)] if not isinstance(val, int) else [("lit", bytes([val & 255]))]))
@@ -949,6 +1005,22 @@ class OutSlice:
             raise PathEnd("panic", "copy_from_slice length mismatch")
         self.out.writes.append(("patch", self.lo, n, list(b.parts)))
         I.run.event("out_patch", self.lo, n, list(b.parts))
+
+    def slice(self, I, lo, hi):
+        return OutSlice(self.out, I.binop("Add", self.lo, lo, "usize"), I.binop("Add", self.lo, hi, "usize"))
+
+    def _bounds(self, I, idx):
+        if I.truth(I.binop("Ge", idx, self.length(I), "usize")):
+            I.run.panics.append(("index_oob", I.where()))
+            raise PathEnd("panic", "index out of bounds of an output sub-slice")
+
+    def index_set(self, I, idx, val):
+        self._bounds(I, idx)
+        self.out.index_set(I, I.binop("Add", self.lo, idx, "usize"), val)
+
+    def index_get(self, I, idx):
+        self._bounds(I, idx)
+        return self.out.index_get(I, I.binop("Add", self.lo, idx, "usize"))
 
     def to_vec(self, I):
         parts = self.out.parts_since(I, self.lo)
@@ -1041,6 +1113,81 @@ class MutIt(It):
         return some(Ref(Box_(M.BoxVal(DynMutator(self.i - 1)), "mutator"), ()))
 
 
+def contains_obj(v, target, depth=0, seen=None):
+    """does the (symbolic) value v mention the object `target`?  (terms, aggregates, byte-string parts, payload lengths)"""
+    if v is target:
+        return True
+    if depth > 8:
+        return False
+    if seen is None:
+        seen = set()
+    if id(v) in seen:
+        return False
+    seen.add(id(v))
+    if is_sym(v):
+        if any(contains_obj(a, target, depth + 1, seen) for a in v.args):
+            return True
+        return any(contains_obj(a, target, depth + 1, seen) for a in (v.attrs or {}).get("rel_args", []) or [])
+    if isinstance(v, Agg):
+        return any(contains_obj(a, target, depth + 1, seen) for a in v.fields)
+    if isinstance(v, (list, tuple)):
+        return any(contains_obj(a, target, depth + 1, seen) for a in v)
+    if isinstance(v, Bytes):
+        return any(contains_obj(a, target, depth + 1, seen) for a in v.parts)
+    if isinstance(v, Payload):
+        return contains_obj(v.len, target, depth + 1, seen)
+    return False
+
+
+def generic_unknown(prog, name, ty, leaves, depth=0):
+    """abstract value of unknown content for a field this analysis has no role for: booleans, integers, floats, Option<int>,
+    fieldless enums and structs of those.  `leaves` collects the lazily decided / symbolic leaves (to see what was read)."""
+    if ty == "bool":
+        v = LazyBool(name)
+    elif ty in INT_TYPES or ty == "f64":
+        v = Sym(name, (), ty, attrs={"name": name})
+    elif ty.startswith("std::option::Option<") and ty[len("std::option::Option<"):-1] in INT_TYPES:
+        v = LazyOption(name, ty[len("std::option::Option<"):-1])
+    else:
+        try:
+            adt = prog.adt_of(ty)
+        except Unanalysable:
+            adt = None
+        d = prog.adts.get(adt) if adt is not None else None
+        if d is None or depth > 3:
+            raise Unanalysable("unknown field %s: %s (no role, no generic abstraction)" % (name, ty))
+        vs = d["variants"]
+        if d.get("kind") == "enum" or len(vs) > 1:
+            if any(x["fields"] for x in vs):
+                raise Unanalysable("unknown field %s: %s (enum with payload: no role, no generic abstraction)" % (name, ty))
+            v = LazyEnum(name, adt, [(x["idx"], x["discr"] if x["discr"] is not None else x["idx"], x["name"]) for x in vs])
+        else:
+            fs = [generic_unknown(prog, "%s.%s" % (name, f["name"]), f["ty"], leaves, depth + 1) for f in vs[0]["fields"]]
+            return Agg(adt, 0, fs)
+    leaves.append(v)
+    return v
+
+
+def leaf_inspected(v, atoms=(), writes=()):
+    """was the entry value of this unknown leaf looked at?"""
+    if isinstance(v, LazyBool):
+        return v.value is not None
+    if isinstance(v, (LazyOption, LazyEnum)):
+        if v.chosen is not None:
+            return True
+        v = getattr(v, "inner", None)
+        if v is None:
+            return False
+    if is_sym(v):
+        for a in atoms:
+            if contains_obj(a[0], v):
+                return True
+        for w in writes:
+            if contains_obj(w, v):
+                return True
+    return False
+
+
 # ========================================================================================
 class Ctx:
     """per-program constants about StackObject + factory for abstract generator states"""
@@ -1081,7 +1228,7 @@ class Ctx:
     def opcode_value(self, name):
         return self.prog.enum_value(self.opcode_adt, name)
 
-    def make_generator(self, depth_bound=7, version=None, flags=None, memo_classes=MEMO_CLASSES, mutators=None):
+    def make_generator(self, depth_bound=7, version=None, flags=None, memo_classes=MEMO_CLASSES, mutators=None, defaults=None):
         """abstract Generator value with every field bound to a special object; unknown new
         fields are a hard error (a new field needs a role before anything can be proved)."""
         flags = flags or {}
@@ -1099,6 +1246,8 @@ class Ctx:
                 raise Unanalysable("unknown field Stack.%s (no role)" % n)
         state_fields = []
         extra_scratch = {}
+        extra_leaves = {}
+        extra_gen = {}
         proto_emitted = LazyBool("proto_emitted")
         for n in self.fields(self.state_adt):
             if n == "version":
@@ -1112,15 +1261,10 @@ class Ctx:
             else:
                 # a field this analysis has no role for is treated as per-pickle scratch of unknown content
                 fty = [f["ty"] for f in self.prog.adts[self.state_adt]["variants"][0]["fields"] if f["name"] == n][0]
-                if fty == "bool":
-                    v = LazyBool("state." + n)
-                elif fty in INT_TYPES:
-                    v = Sym("state." + n, (), fty, attrs={"name": "state." + n})
-                elif fty.startswith("std::option::Option<") and fty[len("std::option::Option<"):-1] in INT_TYPES:
-                    v = LazyOption("state." + n, fty[len("std::option::Option<"):-1])
-                else:
-                    raise Unanalysable("unknown field State.%s: %s (no role, no generic abstraction)" % (n, fty))
+                lv = []
+                v = generic_unknown(self.prog, "state." + n, fty, lv)
                 extra_scratch[n] = v
+                extra_leaves["state." + n] = lv
                 state_fields.append(v)
         gfields = []
         muts = mutators if mutators is not None else AbsMutators(self)
@@ -1139,14 +1283,29 @@ class Ctx:
                 special[n] = flags[n]
             else:
                 special[n] = LazyBool(n)
-        for n in self.fields(self.gen_adt):
+        for f in self.prog.adts[self.gen_adt]["variants"][0]["fields"]:
+            n = f["name"]
             if n not in special:
-                raise Unanalysable("unknown field Generator.%s (no role)" % n)
+                # no role: unknown content.  Whether it is configuration (never written by generation) or per-pickle
+                # state (then it must not be read before it is rewritten) is decided by C08 from what the code does.
+                lv = []
+                if defaults is not None and n in defaults:
+                    special[n] = copy.deepcopy(defaults[n])
+                else:
+                    special[n] = generic_unknown(self.prog, n, f["ty"], lv)
+                extra_gen[n] = special[n]
+                extra_leaves[n] = lv
             gfields.append(special[n])
         g = Agg(self.gen_adt, 0, gfields)
         self.last_special = special
         h = GenHandle(self, g, st, memo, out, muts, special, proto_emitted, ver)
         h.extra_scratch = extra_scratch
+        h.extra_gen = extra_gen
+
+        def snap(v):
+            return ("agg", v.adt, [snap(x) for x in v.fields]) if isinstance(v, Agg) else v
+        h.extra_snap = {n: snap(v) for n, v in extra_gen.items()}
+        h.extra_leaves = extra_leaves
         return h
 
 
@@ -1168,13 +1327,53 @@ class GenHandle:
     CONFIG = ("seed", "bufsize", "min_opcodes", "max_opcodes", "mutators", "mutation_rate", "unsafe_mutations",
               "allow_ext_opcodes", "allow_buffer_opcodes")
 
-    def extra_scratch_read_at_entry(self):
+    def extra_scratch_read_at_entry(self, atoms=(), writes=()):
         """unknown scratch fields of State whose entry value was inspected (read before being overwritten)"""
         out = []
-        for n, v in getattr(self, "extra_scratch", {}).items():
-            if isinstance(v, LazyBool) and v.value is not None:
+        for n in getattr(self, "extra_scratch", {}):
+            if any(leaf_inspected(v, atoms, writes) for v in self.extra_leaves.get("state." + n, [])):
                 out.append(n)
-            elif isinstance(v, LazyOption) and v.chosen is not None:
+        return out
+
+    def extra_gen_read_at_entry(self, atoms=(), writes=()):
+        """unknown Generator fields whose entry value was inspected"""
+        return [n for n in getattr(self, "extra_gen", {}) if any(leaf_inspected(v, atoms, writes) for v in self.extra_leaves.get(n, []))]
+
+    def extra_state_changed(self):
+        st = self.g.fields[self.ctx.fields(self.ctx.gen_adt).index("state")]
+        names = self.ctx.fields(self.ctx.state_adt)
+        return ["state." + n for n, v in getattr(self, "extra_scratch", {}).items() if st.fields[names.index(n)] is not v or
+                (isinstance(v, Agg) and any(not any(x is l for l in self.extra_leaves["state." + n]) for x in v.fields))]
+
+    def extra_gen_rewritten(self):
+        """unknown Generator fields none of whose entry leaves is still in place"""
+        names = self.ctx.fields(self.ctx.gen_adt)
+        out = []
+
+        def leaves_of(v, acc):
+            if isinstance(v, Agg):
+                for x in v.fields:
+                    leaves_of(x, acc)
+            else:
+                acc.append(v)
+            return acc
+        for n in getattr(self, "extra_gen", {}):
+            cur = leaves_of(self.g.fields[names.index(n)], [])
+            if not any(c is l for c in cur for l in self.extra_leaves.get(n, [])):
+                out.append(n)
+        return out
+
+    def extra_gen_changed(self):
+        """unknown Generator fields (or parts of them) that were overwritten during the run"""
+        names = self.ctx.fields(self.ctx.gen_adt)
+        out = []
+
+        def same(a, snap):
+            if isinstance(snap, tuple) and snap and snap[0] == "agg":
+                return isinstance(a, Agg) and a.adt == snap[1] and len(a.fields) == len(snap[2]) and all(same(x, y) for x, y in zip(a.fields, snap[2]))
+            return a is snap
+        for n in getattr(self, "extra_gen", {}):
+            if not same(self.g.fields[names.index(n)], self.extra_snap[n]):
                 out.append(n)
         return out
 
